@@ -40,7 +40,7 @@ extern "C" void __assert_fail(const char* expr, const char* file, unsigned int l
 }
 #endif
 // per-case CPU-time watchdog (ITIMER_PROF counts CPU time of this process: independent of machine load): a call that does not
-// return within the budget (seconds, environment C02_CPU_BUDGET, default 20) ends the harness with a marker line; the check
+// return within the budget (seconds, environment C02_CPU_BUDGET, default 10) ends the harness with a marker line; the check
 // re-runs that one case alone with a larger budget before it reports "does not return".
 static void cpu_budget_exceeded(int) { static const char m[] = "CPU-BUDGET-EXCEEDED\n"; ssize_t w = write(1, m, sizeof m - 1); (void)w; _exit(97); }
 static void arm_watchdog(long sec) { struct itimerval t; t.it_interval.tv_sec = 0; t.it_interval.tv_usec = 0; t.it_value.tv_sec = sec; t.it_value.tv_usec = 0; setitimer(ITIMER_PROF, &t, NULL); }
@@ -313,7 +313,7 @@ int main()
 {
     struct sigaction sa; sa.sa_handler = cpu_budget_exceeded; sigemptyset(&sa.sa_mask); sa.sa_flags = 0; sigaction(SIGPROF, &sa, NULL);
     const char* be = getenv("C02_CPU_BUDGET");
-    const long budget = (be && atol(be) > 0) ? atol(be) : 20;
+    const long budget = (be && atol(be) > 0) ? atol(be) : 10;
     std::string line;
     while (std::getline(std::cin, line)) {
         std::istringstream is(line);
